@@ -348,6 +348,12 @@ Lemma parafac_structure shape spec out : parafac shape spec = Ok out ->
 Proof. unfold parafac. destruct (validate_cp_rank shape spec RRound) as [r|]; [|discriminate]. simpl. intros H; inversion H. eauto. Qed.
 
 (* ------------------------------------------------------------------ loop skeleton: the normalisation contract *)
+Definition no_callback_stop (decisions : list (bool * bool)) : Prop := Forall (fun d => fst d = false) decisions.
+Lemma no_callback_stop_hd ds : no_callback_stop ds -> fst (hd (false, false) ds) = false.
+Proof. destruct 1; [reflexivity | assumption]. Qed.
+Lemma no_callback_stop_tl ds : no_callback_stop ds -> no_callback_stop (tl ds).
+Proof. destruct 1; [constructor | assumption]. Qed.
+
 Section SkeletonProofs.
   Variable St : Type.
   Variables (sweep normalise : St -> St).
@@ -355,40 +361,144 @@ Section SkeletonProofs.
   Hypothesis normalise_spec : forall s, Normalised (normalise s).
   Hypothesis sweep_keeps_weights : forall s, UnitWeights s -> UnitWeights (sweep s).
 
+  (* --- the code as it is: normalised unless (user init and no sweep) or a callback stop *)
   Lemma cp_loop_normalised tol_set fuel : forall it decisions s,
-    0 < fuel \/ Normalised s -> Normalised (cp_loop St sweep normalise true tol_set it fuel decisions s).
+    no_callback_stop decisions -> 0 < fuel \/ Normalised s ->
+    Normalised (cp_loop St sweep normalise true tol_set it fuel decisions s).
   Proof.
-    induction fuel as [|fuel IH]; intros it decisions s H.
+    induction fuel as [|fuel IH]; intros it decisions s Hcb H.
     - simpl. destruct H as [H|H]; [lia | exact H].
-    - cbn [cp_loop]. destruct (tol_set && (1 <=? it) && hd false decisions); [apply normalise_spec|].
-      apply IH. right. apply normalise_spec.
+    - cbn [cp_loop]. rewrite (no_callback_stop_hd _ Hcb).
+      destruct (tol_set && (1 <=? it) && snd (hd (false, false) decisions)); [apply normalise_spec|].
+      apply IH; [now apply no_callback_stop_tl|]. right. apply normalise_spec.
   Qed.
-  Lemma cp_run_normalised tol_set ik n decisions s0 :
-    ik <> InitUser \/ 0 < n -> Normalised (cp_run St sweep normalise true tol_set ik n decisions s0).
+  Lemma cp_run_normalised tol_set ik all_fixed n decisions s0 :
+    no_callback_stop decisions -> ik <> InitUser \/ (0 < n /\ all_fixed = false) ->
+    Normalised (cp_run St sweep normalise true tol_set ik all_fixed n decisions s0).
   Proof.
-    intros H. unfold cp_run. apply cp_loop_normalised. destruct H as [H|H]; [|left; exact H].
-    right. unfold init_state. destruct ik; try apply normalise_spec. congruence.
+    intros Hcb H. unfold cp_run.
+    assert (Hi : ik <> InitUser -> Normalised (init_state St normalise true ik s0)).
+    { intros Hik. unfold init_state, norm_if. destruct ik; try apply normalise_spec. congruence. }
+    destruct all_fixed.
+    - destruct H as [H|[_ H]]; [now apply Hi | discriminate].
+    - apply cp_loop_normalised; [exact Hcb|]. destruct H as [H|[H _]]; [right; now apply Hi | left; exact H].
   Qed.
+  (* a callback stop after a sweep hands back exactly what the sweep produced *)
+  Lemma cp_loop_callback_stop nf tol_set it fuel decisions s :
+    fst (hd (false, false) decisions) = true ->
+    cp_loop St sweep normalise nf tol_set it (S fuel) decisions s = sweep s.
+  Proof. intros H. cbn [cp_loop]. now rewrite H. Qed.
+
+  (* --- normalize_factors = False: the weights stay all ones on EVERY path *)
   Lemma cp_loop_unit_weights tol_set fuel : forall it decisions s,
     UnitWeights s -> UnitWeights (cp_loop St sweep normalise false tol_set it fuel decisions s).
   Proof.
-    induction fuel as [|fuel IH]; intros it decisions s H; [exact H|]. cbn [cp_loop].
-    destruct (tol_set && (1 <=? it) && hd false decisions); [now apply sweep_keeps_weights|].
+    induction fuel as [|fuel IH]; intros it decisions s H; [exact H|]. cbn [cp_loop]. unfold norm_if.
+    destruct (fst (hd (false, false) decisions)); [now apply sweep_keeps_weights|].
+    destruct (tol_set && (1 <=? it) && snd (hd (false, false) decisions)); [now apply sweep_keeps_weights|].
     apply IH. now apply sweep_keeps_weights.
   Qed.
-  Lemma cp_run_unit_weights tol_set ik n decisions s0 :
-    UnitWeights s0 -> UnitWeights (cp_run St sweep normalise false tol_set ik n decisions s0).
-  Proof. intros H. unfold cp_run. apply cp_loop_unit_weights. unfold init_state. destruct ik; exact H. Qed.
+  Lemma cp_run_unit_weights tol_set ik all_fixed n decisions s0 :
+    UnitWeights s0 -> UnitWeights (cp_run St sweep normalise false tol_set ik all_fixed n decisions s0).
+  Proof.
+    intros H. unfold cp_run.
+    assert (Hi : UnitWeights (init_state St normalise false ik s0)) by (unfold init_state, norm_if; destruct ik; exact H).
+    destruct all_fixed; [exact Hi|]. now apply cp_loop_unit_weights.
+  Qed.
+
+  (* --- the candidate repair: normalised on every path, for every decision sequence and every cap *)
+  Lemma cp_loop_fix_normalised tol_set fuel : forall it decisions s,
+    Normalised s -> Normalised (cp_loop_fix St sweep normalise true tol_set it fuel decisions s).
+  Proof.
+    induction fuel as [|fuel IH]; intros it decisions s H; [exact H|]. cbn [cp_loop_fix]. unfold norm_if.
+    destruct (fst (hd (false, false) decisions)); [apply normalise_spec|].
+    destruct (tol_set && (1 <=? it) && snd (hd (false, false) decisions)); [apply normalise_spec|].
+    apply IH. apply normalise_spec.
+  Qed.
+  Lemma cp_run_fix_normalised tol_set ik all_fixed n decisions s0 :
+    Normalised (cp_run_fix St sweep normalise true tol_set ik all_fixed n decisions s0).
+  Proof.
+    unfold cp_run_fix, norm_if. destruct all_fixed; [apply normalise_spec|].
+    apply cp_loop_fix_normalised. apply normalise_spec.
+  Qed.
+  Lemma cp_loop_fix_unit_weights tol_set fuel : forall it decisions s,
+    UnitWeights s -> UnitWeights (cp_loop_fix St sweep normalise false tol_set it fuel decisions s).
+  Proof.
+    induction fuel as [|fuel IH]; intros it decisions s H; [exact H|]. cbn [cp_loop_fix]. unfold norm_if.
+    destruct (fst (hd (false, false) decisions)); [now apply sweep_keeps_weights|].
+    destruct (tol_set && (1 <=? it) && snd (hd (false, false) decisions)); [now apply sweep_keeps_weights|].
+    apply IH. now apply sweep_keeps_weights.
+  Qed.
+  Lemma cp_run_fix_unit_weights tol_set ik all_fixed n decisions s0 :
+    UnitWeights s0 -> UnitWeights (cp_run_fix St sweep normalise false tol_set ik all_fixed n decisions s0).
+  Proof. intros H. unfold cp_run_fix, norm_if. destruct all_fixed; [exact H|]. now apply cp_loop_fix_unit_weights. Qed.
+  (* the repair changes nothing on the paths on which the code was already right *)
+  Lemma cp_loop_fix_same nf tol_set fuel : forall it decisions s, no_callback_stop decisions ->
+    cp_loop_fix St sweep normalise nf tol_set it fuel decisions s = cp_loop St sweep normalise nf tol_set it fuel decisions s.
+  Proof.
+    induction fuel as [|fuel IH]; intros it decisions s Hcb; [reflexivity|]. cbn [cp_loop cp_loop_fix].
+    rewrite (no_callback_stop_hd _ Hcb).
+    destruct (tol_set && (1 <=? it) && snd (hd (false, false) decisions)); [reflexivity|].
+    apply IH. now apply no_callback_stop_tl.
+  Qed.
+  Lemma cp_run_fix_same nf tol_set ik all_fixed n decisions s0 : no_callback_stop decisions -> ik <> InitUser ->
+    cp_run_fix St sweep normalise nf tol_set ik all_fixed n decisions s0 = cp_run St sweep normalise nf tol_set ik all_fixed n decisions s0.
+  Proof.
+    intros Hcb Hik. unfold cp_run_fix, cp_run.
+    assert (E : init_state St normalise nf ik s0 = norm_if St normalise nf s0) by (destruct ik; [reflexivity | reflexivity | congruence]).
+    rewrite E. destruct all_fixed; [reflexivity|]. now apply cp_loop_fix_same.
+  Qed.
 End SkeletonProofs.
 
-(* ghost instance: the state is the single bit "factors are normalised" *)
-Definition ghost_run (nf tol_set : bool) (ik : init_kind) (n : nat) (decisions : list bool) : bool :=
-  cp_run bool (fun _ => false) (fun _ => true) nf tol_set ik n decisions false.
+(* ghost instance: the state is the single bit "factors are normalised"; a sweep destroys it, cp_normalize restores it *)
+Definition ghost_run (nf tol_set : bool) (ik : init_kind) (all_fixed : bool) (n : nat) (decisions : list (bool * bool)) : bool :=
+  cp_run bool (fun _ => false) (fun _ => true) nf tol_set ik all_fixed n decisions false.
+Definition ghost_run_fix (nf tol_set : bool) (ik : init_kind) (all_fixed : bool) (n : nat) (decisions : list (bool * bool)) : bool :=
+  cp_run_fix bool (fun _ => false) (fun _ => true) nf tol_set ik all_fixed n decisions false.
 Definition ghost_run_pinned (nf tol_set : bool) (n : nat) (decisions : list bool) : bool :=
   cp_loop_pinned bool (fun _ => false) (fun _ => true) nf tol_set 0 n decisions true.
-Lemma ghost_user_cap0 : forall tol_set decisions, ghost_run true tol_set InitUser 0 decisions = false.
+(* the three ways in which the code as it is returns un-normalised factors although normalize_factors = True *)
+Lemma ghost_user_cap0 : forall tol_set decisions, ghost_run true tol_set InitUser false 0 decisions = false.
 Proof. reflexivity. Qed.
+Lemma ghost_user_all_fixed : forall tol_set n decisions, ghost_run true tol_set InitUser true n decisions = false.
+Proof. reflexivity. Qed.
+Lemma ghost_callback_stop : forall tol_set ik n decisions, ghost_run true tol_set ik false (S n) ((true, false) :: decisions) = false.
+Proof. reflexivity. Qed.
+Lemma ghost_fix_normalised : forall tol_set ik all_fixed n decisions, ghost_run_fix true tol_set ik all_fixed n decisions = true.
+Proof. intros. apply (cp_run_fix_normalised bool (fun _ => false) (fun _ => true) (fun b => b = true)). reflexivity. Qed.
 Lemma ghost_pinned_break : ghost_run_pinned true true 2 [false; true] = false.
 Proof. reflexivity. Qed.
-Lemma ghost_repaired_break : forall ik, ghost_run true true ik 2 [false; true] = true.
-Proof. intros. apply (cp_run_normalised bool (fun _ => false) (fun _ => true) (fun b => b = true)); [reflexivity | right; lia]. Qed.
+Lemma ghost_repaired_break : forall ik, ghost_run true true ik false 2 [(false, false); (false, true)] = true.
+Proof.
+  intros. apply (cp_run_normalised bool (fun _ => false) (fun _ => true) (fun b => b = true)); [reflexivity | |right; split; [lia | reflexivity]].
+  repeat constructor.
+Qed.
+
+(* ------------------------------------------------------------------ the skeleton on event traces *)
+Lemma ends_normalised_snoc t : ends_normalised (t ++ [EvN]) = true.
+Proof. unfold ends_normalised. now rewrite rev_app_distr. Qed.
+Lemma any_normalise_app a b : any_normalise (a ++ b) = any_normalise a || any_normalise b.
+Proof. unfold any_normalise. apply existsb_app. Qed.
+Lemma any_normalise_sweep modes t : any_normalise (trace_sweep false modes t) = any_normalise t.
+Proof.
+  unfold trace_sweep. rewrite any_normalise_app. replace (any_normalise (flat_map _ modes)) with false; [apply orb_false_r|].
+  induction modes as [|m l IH]; [reflexivity|]. simpl. exact IH.
+Qed.
+(* normalize_factors = True: the returned trace ends with a cp_normalize (model of the code as it is, under the two exclusions) *)
+Lemma trace_run_ends_normalised d tol_set ik n_modes fixed n decisions :
+  no_callback_stop decisions -> ik <> InitUser \/ (0 < n /\ all_fixed d n_modes fixed = false) ->
+  ends_normalised (trace_run d true tol_set ik n_modes fixed n decisions) = true.
+Proof.
+  intros Hcb H. unfold trace_run.
+  apply (cp_run_normalised (list ev) _ (fun s => s ++ [EvN]) (fun t => ends_normalised t = true)); try assumption.
+  intros s. apply ends_normalised_snoc.
+Qed.
+(* normalize_factors = False: cp_normalize is never applied *)
+Lemma trace_run_never_normalises d tol_set ik n_modes fixed n decisions :
+  any_normalise (trace_run d false tol_set ik n_modes fixed n decisions) = false.
+Proof.
+  unfold trace_run. simpl andb.
+  apply (cp_run_unit_weights (list ev) (trace_sweep false (modes_list d n_modes fixed)) (fun s => s ++ [EvN]) (fun t => any_normalise t = false)).
+  - intros s Hs. now rewrite any_normalise_sweep.
+  - reflexivity.
+Qed.
